@@ -179,7 +179,9 @@ def instStep (st : St) (two : Bool) (args : List String) : St × String :=
   let i := getI st two
   let l := i.led
   match args with
-  | ["use", w] => (st, useTok (useWallet l.store l.wallets w))
+  | ["use", w] =>
+    -- selectability IS the property (MW.Props.C07.not_selectable_until_done): model answer = spec answer
+    (st, useTok (useWallet l.store l.wallets w) ++ "\t" ++ useTok (useWallet l.store l.wallets w))
   | ["restart"] =>
     let (l', o) := Led.step l ["restart"]
     (setI st two { i with led := l', queue := [], rm := none, quit := false, begun := false }, o)
